@@ -76,6 +76,11 @@ def run_case(case):
     else:
         c.iotaVal = iota
         iota_of = lambda r: iota + 0 * np.asarray(r, dtype=float)               # noqa
+    import copy
+    c_alt = copy.copy(c)
+    c_alt.R0 = 1.9 * c.R0
+    c_alt.iotaVal = 0.35
+    c_alt.iota = lambda r=None: 0.35 + 0.2 * np.asarray(r, dtype=float)
     bth = ops.mkspace(nq, 0.0, tp, deg, True, kind == 'cu', warp)
     S = refspline.RefSpace(bth)
     cond = S.cond_inf()
@@ -98,6 +103,8 @@ def run_case(case):
             lay = Layout(lname, lnp, lorder, eta, lrank)
             rpos = lorder.index(0)
             try:
+                if c_alt is not None:
+                    ParallelGradient(bth, eta, lay, c_alt, order)          # another operator on the same grids for another field geometry, built first
                 pg = ParallelGradient(bth, eta, lay, c, order)
             except Exception as e:  # noqa
                 V('construct:' + type(e).__name__, '%s p=%s rank=%s: %s: %s' % (tag, p, rank, type(e).__name__, e))
